@@ -201,6 +201,9 @@ pub use queue::{Queue, QueueDeclareOptions, QueueDeleteOptions};
 pub use return_::Return;
 pub use stream::IoStream;
 
+#[cfg(amiquip_verif)]
+pub mod verif;
+
 #[cfg(feature = "native-tls")]
 pub use stream::TlsConnector;
 
